@@ -1,7 +1,7 @@
 (* C01 — property theorems only.  Each is closed by lemmas of Proofs*.v and
    followed by Print Assumptions. *)
 From Coq Require Import List NArith ZArith Bool.
-From Verif Require Import lib.Wire c01.Model c01.Spec c01.Proofs c01.Proofs_enum.
+From Verif Require Import lib.Wire c01.Model c01.ModelTLS c01.Spec c01.Proofs c01.Proofs_enum c01.Proofs_tls gen.Consts_c01.
 Import ListNotations.
 
 (* ============================ Noise ============================================ *)
@@ -143,6 +143,181 @@ Proof.
 Qed.
 Print Assumptions c01_noise_undisturbed_and_prologue.
 
+(* ============================ TLS ============================================== *)
+
+(* tls_key_is_certified (the part that holds for the code as it is, whether or
+   not the self-signature is checked): PubKeyFromCertChain returns a key only
+   for a chain of exactly one certificate, currently valid, without unhandled
+   critical extension, whose FIRST libp2p extension holds that key and a
+   signature issued BY that key over "libp2p-tls-handshake:" ++ the key of
+   THIS certificate.  For every chain. *)
+Theorem c01_tls_key_is_certified_partial : forall sf chain pub,
+  pubkey_from_chain sf chain = inl pub ->
+  exists c id r,
+    chain = [c] /\ pub = NPub id /\
+    find_libp2p (c_exts c) = Some (XSigned (NPub id) (NSig id (NCat TLSPREFIX (certpub (c_key c))) r)) /\
+    c_time_ok c = true /\ existsb other_critical (c_exts c) = false /\
+    (sf = true -> self_signed c = true).
+Proof. exact pubkey_from_chain_sound. Qed.
+Print Assumptions c01_tls_key_is_certified_partial.
+
+(* the full statement — "... and the certificate is signed by its own key over
+   the bytes as they are" — holds for a tree that checks the signature ... *)
+Theorem c01_tls_key_is_certified : forall chain pub,
+  pubkey_from_chain true chain = inl pub ->
+  exists id, pub = NPub id /\ certifies chain id = true /\ self_signature_defect chain = 0%Z.
+Proof.
+  intros chain pub H. apply certifies_of_sound in H. destruct H as [id [E [C S]]].
+  exists id. repeat split; auto.
+Qed.
+Print Assumptions c01_tls_key_is_certified.
+
+(* ... and is REFUTED for the code as it is (x509.Verify does not check the
+   signature of a certificate that is itself in the root pool): a certificate
+   signed with a substituted key, and one altered after signing, are accepted *)
+Theorem c01_tls_self_signature_refuted :
+  exists chain1 chain2,
+    pubkey_from_chain false chain1 = inl (NPub 3) /\ self_signature_defect chain1 = 1%Z /\
+    pubkey_from_chain false chain2 = inl (NPub 3) /\ self_signature_defect chain2 = 2%Z.
+Proof.
+  exists [mkCert 1 4 true true [XLibp2p false (XSigned (NPub 3) (NSig 3 (NCat TLSPREFIX (certpub 1)) 1))]],
+         [mkCert 1 1 false true [XLibp2p false (XSigned (NPub 3) (NSig 3 (NCat TLSPREFIX (certpub 1)) 1))]].
+  vm_compute. repeat split; reflexivity.
+Qed.
+Print Assumptions c01_tls_self_signature_refuted.
+
+(* the callback of ConfigForPeer(remote): a key reaches keyCh only if the chain
+   certifies it and, when a peer was named, it is that peer's key *)
+Theorem c01_tls_expected_peer_enforced : forall sf remote raw pub,
+  verify_peer sf remote raw = inl pub ->
+  exists id, pub = NPub id /\ certifies raw id = true /\
+             (sf = true -> self_signature_defect raw = 0%Z) /\
+             forallb parse_ok raw = true /\
+             (forall r, remote = Some r -> r = id).
+Proof. exact verify_peer_sound. Qed.
+Print Assumptions c01_tls_expected_peer_enforced.
+
+(* tls_mutations_rejected: every mutation of the libp2p extension of an honest
+   certificate (public key, signature, certificate key, extension absent /
+   duplicated / not ASN.1, chain length 0 and 2) is rejected, whoever is
+   expected, for every pair of distinct identities own (presenting) and v (victim) *)
+Definition good_ext (id key : N) : ext :=
+  XLibp2p false (XSigned (NPub id) (NSig id (NCat TLSPREFIX (certpub key)) 1)).
+Definition cert1 (exts : list ext) : cert := mkCert 1 1 true true exts.
+Definition mutated_chains (own v : N) : list (list cert) :=
+  let sg m := XLibp2p false (XSigned (NPub own) m) in
+  [ [cert1 [XLibp2p false (XSigned (NPub v) (NSig own (NCat TLSPREFIX (certpub 1)) 1))]];  (* public key replaced *)
+    [cert1 [XLibp2p false (XSigned (NJunk 920) (NSig own (NCat TLSPREFIX (certpub 1)) 1))]];
+    [cert1 [XLibp2p false (XSigned NEmpty (NSig own (NCat TLSPREFIX (certpub 1)) 1))]];
+    [cert1 [sg (NSig v (NCat TLSPREFIX (certpub 1)) 1)]];          (* signature by another key *)
+    [cert1 [sg (NSig own (certpub 1) 1)]];                         (* without the prefix *)
+    [cert1 [sg (NSig own (NCat TLSPREFIX (certpub 3)) 1)]];        (* over another certificate key *)
+    [cert1 [sg (NJunk 921)]]; [cert1 [sg NEmpty]];
+    [cert1 [good_ext v 2]];                                         (* certificate key replaced under the victim's extension *)
+    [cert1 [XLibp2p false (XSigned (NPub v) (NSig v (certpub 2) 1))]];
+    [cert1 []]; [cert1 [XOther 7 false]];                          (* extension absent *)
+    [cert1 [good_ext own 1; good_ext own 1]];                      (* duplicated *)
+    [cert1 [XLibp2p false (XSigned (NPub v) (NSig own (NCat TLSPREFIX (certpub 1)) 1)); good_ext own 1]];
+    [cert1 [good_ext own 1; XLibp2p false (XSigned (NPub v) (NSig own (NCat TLSPREFIX (certpub 1)) 1))]];
+    [cert1 [XLibp2p false XJunk]];                                  (* not ASN.1 *)
+    [];                                                             (* chain length 0, 2 *)
+    [cert1 [good_ext own 1]; mkCert 3 3 true true [good_ext own 3]];
+    [cert1 [good_ext own 1]; mkCert 3 3 true true []];
+    [mkCert 3 3 true true []; cert1 [good_ext own 1]];
+    [mkCert 2 2 true true [good_ext v 2]; cert1 [good_ext own 1]] ].
+
+Definition rejected (r : nt + N) : bool := match r with inr _ => true | inl _ => false end.
+Definition ids123 : list N := [1; 2; 3]%N.
+
+Theorem c01_tls_mutations_rejected : forall sf own v exp ch,
+  In own ids123 -> In v ids123 -> own <> v -> In exp (None :: map Some ids123) ->
+  In ch (mutated_chains own v) ->
+  rejected (verify_peer sf exp ch) = true /\
+  (forallb parse_ok ch = true -> rejected (pubkey_from_chain sf ch) = true).
+Proof.
+  assert (A : forallb (fun sf => forallb (fun own => forallb (fun v => N.eqb own v ||
+                forallb (fun exp => forallb (fun ch =>
+                   rejected (verify_peer sf exp ch) &&
+                   (negb (forallb parse_ok ch) || rejected (pubkey_from_chain sf ch)))
+                 (mutated_chains own v)) (None :: map Some ids123)) ids123) ids123) [false; true] = true)
+    by (vm_compute; reflexivity).
+  intros sf own v exp ch Ho Hv Hne He Hc.
+  rewrite forallb_forall in A. assert (Hs : In sf [false; true]) by (destruct sf; cbn; auto).
+  specialize (A sf Hs). rewrite forallb_forall in A. specialize (A own Ho).
+  rewrite forallb_forall in A. specialize (A v Hv). apply orb_true_iff in A. destruct A as [A|A].
+  { apply N.eqb_eq in A. contradiction. }
+  rewrite forallb_forall in A. specialize (A exp He). rewrite forallb_forall in A. specialize (A ch Hc).
+  apply andb_true_iff in A. destruct A as [A1 A2]. split; [exact A1|].
+  intros Hp. rewrite Hp in A2. exact A2.
+Qed.
+Print Assumptions c01_tls_mutations_rejected.
+
+(* the handshake (ideal TLS 1.3 around the real checks): a completed endpoint
+   received no edited record, the peer held the leaf certificate's private key,
+   its chain certifies the reported key, and a named peer is enforced *)
+Theorem c01_tls_handshake_authenticates : forall sf me other ed pf id key,
+  tls_endpoint sf me other ed pf = TDone id key ->
+  ed = false /\ pf = false /\ key = NPub id /\ t_holds other = true /\
+  certifies (t_chain other) id = true /\
+  (sf = true -> self_signature_defect (t_chain other) = 0%Z) /\
+  (forall r, t_expect me = Some r -> r = id).
+Proof. exact tls_endpoint_done. Qed.
+Print Assumptions c01_tls_handshake_authenticates.
+
+(* HEADLINE (TLS): the monitor that judges the implementation accepts the
+   model's trace for every pair of endpoints, every certificate chain on either
+   side, every edit position — given the ground truth the monitor is told (each
+   endpoint can get only its own identity certified for a certificate key it
+   holds: unforgeability), and either a tree that checks the self-signature or
+   chains without a self-signature defect.  The case excluded by the last
+   hypothesis is exactly the finding c01_tls_self_signature_refuted. *)
+Theorem c01_tls_monitor_accepts_model_partial : forall sf c s e idC idS wp,
+  presents_only_own c idC -> presents_only_own s idS ->
+  (sf = true \/ (self_signature_defect (t_chain c) = 0%Z /\ self_signature_defect (t_chain s) = 0%Z)) ->
+  let '(rc, rs) := tls_run sf c s e in
+  judge_tls_side c s idS (match e with TServerFlight => true | _ => false end) (tobs_of rc rs wp) = [] /\
+  judge_tls_side s c idC (match e with TClientHello | TClientFlight => true | _ => false end) (tobs_of rs rc wp) = [].
+Proof.
+  intros sf c s e idC idS wp Hc Hs Hself. unfold tls_run. split.
+  - apply judge_tls_side_model; [exact Hs | destruct Hself as [->|[_ D]]; auto |].
+    destruct e; intros H; try discriminate H; reflexivity.
+  - apply judge_tls_side_model; [exact Hc | destruct Hself as [->|[D _]]; auto |].
+    destruct e; intros H; try discriminate H; reflexivity.
+Qed.
+Print Assumptions c01_tls_monitor_accepts_model_partial.
+
+(* ============================ swarm ============================================ *)
+
+(* dial_never_returns_other_peer: whatever connection the transport (dialAddr)
+   or the dial synchroniser (dialPeer) hands back, the caller of a dial for p
+   gets a connection only if its RemotePeer() is p; composed: DialPeer *)
+Theorem c01_dial_never_returns_other_peer : forall local p t r,
+  (dial_addr local p t = DConn r -> r = p /\ p <> local) /\
+  (dial_peer local p t = DConn r -> r = p /\ p <> local) /\
+  (dial_peer local p (dial_addr local p t) = DConn r -> r = p /\ p <> local).
+Proof.
+  intros local p t r. split; [|split]; intros H0;
+    first [apply dial_addr_only_p in H0 | apply dial_peer_only_p in H0]; exact H0.
+Qed.
+Print Assumptions c01_dial_never_returns_other_peer.
+
+(* the dial monitor accepts every answer of the model *)
+Theorem c01_dial_monitor_accepts_model : forall kind local p remote,
+  (0 <= p)%Z ->
+  let '(ok, rr) := match dial_model kind (Z.to_N local) (Z.to_N p) remote with
+                   | DErr => (0, 0) | DConn r => (1, Z.of_N r) end%Z in
+  monitor_dial [local; p; kind; remote; ok; rr] = [].
+Proof.
+  intros kind local p remote Hp.
+  destruct (dial_model kind (Z.to_N local) (Z.to_N p) remote) as [|r] eqn:E; [reflexivity|].
+  assert (Hr : r = Z.to_N p).
+  { unfold dial_model in E.
+    destruct (kind =? 0)%Z; [apply dial_addr_only_p in E; apply E|].
+    destruct (kind =? 1)%Z; apply dial_peer_only_p in E; apply E. }
+  subst. unfold monitor_dial. rewrite Z2N.id by exact Hp. rewrite (Z.eqb_refl p). reflexivity.
+Qed.
+Print Assumptions c01_dial_monitor_accepts_model.
+
 (* ---- non-vacuity ---------------------------------------------------------------- *)
 Example honest_run_completes :
   let sc := mkSc (mkSide KA false false (Some KB) P0) (mkSide KB false false None P0) ENone None in
@@ -163,4 +338,21 @@ Proof. vm_compute. discriminate. Qed.
 (* ... a responder that named A, completing with E *)
 Example monitor_rejects_unexpected_peer :
   monitor_case [1; 0;0; 3;1;1;0;0; 2;0;0;1;0; 0;0;0;0;0; 1;1;3;3;0; 1; 9;0;0; 0;3;3]%Z <> [].
+Proof. vm_compute. discriminate. Qed.
+
+(* TLS: an honest chain is accepted and certifies its key *)
+Example tls_honest_chain_accepted : forall sf,
+  verify_peer sf (Some 3%N) [cert1 [good_ext 3 1]] = inl (NPub 3) /\
+  certifies [cert1 [good_ext 3 1]] 3 = true.
+Proof. intros []; vm_compute; split; reflexivity. Qed.
+
+(* the TLS monitor rejects a client that completes against a certificate carrying the
+   victim's extension over another certificate key *)
+Example monitor_rejects_replayed_extension :
+  monitor_case [3; 0;0; 1;2;1; 1; 1;1;1;1;1; 1;0;1;1;1;1;1;
+                        3;0;1; 1; 1;1;1;1;1; 1;0;1;2;2;1;2;  0;0;0;0;  0;2;2;0; 1;0;0;0]%Z <> [].
+Proof. vm_compute. discriminate. Qed.
+
+(* the dial monitor rejects a connection to another peer handed to the caller *)
+Example monitor_rejects_wrong_peer_conn : monitor_case [4; 1; 2; 0; 3; 1; 3]%Z <> [].
 Proof. vm_compute. discriminate. Qed.
